@@ -78,6 +78,13 @@ def _mk_source(c):
     return a, a
 
 
+def _copy_flag(c):
+    """copy=True / copy=False the way a caller may pass it: the bool, a NumPy bool, or 1 / 0"""
+    import numpy as np
+    form = c.get("copy_form")
+    return np.bool_(c["copy"]) if form == "np" else int(c["copy"]) if form == "int" else c["copy"]
+
+
 def _construct(c, src):
     import numpy as np
     from nitypes.waveform import AnalogWaveform, ComplexWaveform, DigitalWaveform, Spectrum
@@ -95,20 +102,20 @@ def _construct(c, src):
             obj = K(0, ncols, W.np_dtype(DT[cls]), capacity=c["preload_cap"])
         else:
             obj = K(0, W.np_dtype(DT[cls]), capacity=c["preload_cap"])
-        obj.load_data(src, copy=c["copy"])
+        obj.load_data(src, copy=_copy_flag(c))
         return obj
     if cls in ("XYx", "XYy"):
         other = np.arange(len(c["vals"]), dtype=W.np_dtype(CAST_TO[cls] if c["cast"] else DT[cls])) if c["kind"] != "list" else list(range(len(c["vals"])))
         xs, ys = (src, other) if cls == "XYx" else (other, src)
         if path == "ctor":
             return XYData(xs, ys) if dtype is None else XYData(xs, ys)  # the constructor has no dtype argument
-        return XYData.from_arrays_1d(xs, ys, dtype, copy=c["copy"])
+        return XYData.from_arrays_1d(xs, ys, dtype, copy=_copy_flag(c))
     if path == "from_array_1d":
-        return K.from_array_1d(src, dtype, copy=c["copy"], **kw)
+        return K.from_array_1d(src, dtype, copy=_copy_flag(c), **kw)
     if path == "from_array_2d":
-        return K.from_array_2d(src, dtype, copy=c["copy"], **kw)[c["row"]]
+        return K.from_array_2d(src, dtype, copy=_copy_flag(c), **kw)[c["row"]]
     if path == "from_lines":
-        return K.from_lines(src, dtype, copy=c["copy"], **kw)
+        return K.from_lines(src, dtype, copy=_copy_flag(c), **kw)
     if path == "ctor":
         dk = "data" if cls in ("D", "S") else "raw_data"
         return K(**{dk: src}, dtype=dtype, **kw)
@@ -497,6 +504,8 @@ def gen_cases(rng, tier):
         copy = rng.random() < 0.5
         c = {"k": "hist", "cls": cls, "path": path, "two_d": two_d, "kind": kind, "vals": vals, "cols": cols, "cast": cast, "copy": copy,
              "pad": rng.choice([1, 2]), "give_dtype": rng.random() < 0.3, "row": 0, "count": None, "preload_cap": None}
+        if rng.random() < 0.3:
+            c["copy_form"] = rng.choice(["np", "np", "int"])
         if path == "from_array_2d":
             c["row"] = rng.randrange(n)
             c["count"] = rng.choice([None, None, max(cols - 1, 0)])
